@@ -4,7 +4,7 @@
 //   if a face comes back: full query sweep, label queries, a few shapings with invariant walks, fonts; then destroy.
 //   Oracles: sanitizer (MON-SAN), CPU budget, MON-TABLE conservation at the two quiescent points, no GET after make
 //   on a preloadAll face, MON-ALLOC live set empty at quiescence.  H4 records which load-failure codes were tripped.
-// Mutation kinds (--mut): fuzz (historical .fuzz records), sweep (boundary values at structure-derived offsets), tail (all 256 values at the last bytes of each table),
+// Mutation kinds (--mut): fuzz (historical .fuzz records), sweep (boundary values at structure-derived offsets), tail (all 256 values at the last bytes of each table), cut (systematic truncations; last Silf pass cut at every byte with its end offset patched),
 //   field (16/32-bit field edits at those offsets, singly and in adjacent pairs), random, trunc, dir, hostile (callback answers),
 //   none (well-formed histories)
 #include "common.hpp"
@@ -169,6 +169,41 @@ static std::vector<OffArr> offset_arrays(const std::vector<uint8_t> &d) {
         }
     }
     return v;
+}
+
+
+// Location of the last pass of the first Silf subtable (lenient parse): file offsets of the Silf directory entry's length field,
+// of the oPasses[numPasses] word, and the pass's start relative to the subtable.  Used by the 'cut' mutation.
+struct LastPass { bool ok; uint32_t silf_off, silf_len, dirlen_field, opasses_last_field, sub, ps, pe; };
+static LastPass silf_last_pass(const std::vector<uint8_t> &d) {
+    LastPass L = {false, 0, 0, 0, 0, 0, 0, 0};
+    std::vector<SfntDirEnt> dir = sfnt_dir(d);
+    for (size_t i = 0; i < dir.size(); ++i) {
+        if (dir[i].tag != 0x53696C66u) continue;           // 'Silf'
+        const SfntDirEnt &s = dir[i];
+        if (s.len <= 40 || size_t(s.off) + s.len > d.size()) return L;
+        const uint8_t *p = d.data() + s.off;
+        uint32_t ver = rd32(p);
+        size_t hdr = ver >= 0x30000 ? 12 : 8;
+        unsigned nsub = rd16(p + (ver >= 0x30000 ? 8 : 4));
+        if (nsub != 1) return L;                            // the cut must also be the end of the table
+        uint32_t sub = rd32(p + hdr);
+        size_t q = sub + (ver >= 0x30000 ? 8 : 0);
+        if (q + 24 >= s.len) return L;
+        unsigned numPasses = p[q + 6], numJ = p[q + 19];
+        size_t r = q + 20 + 8 * numJ + 2 + 1 + 1 + 1 + 1 + 3;
+        if (r + 2 >= s.len) return L;
+        r += 1 + 2 * size_t(p[r]) + 1;
+        if (r + 1 >= s.len) return L;
+        r += 1 + 4 * size_t(p[r]) + 2;
+        if (numPasses == 0 || numPasses > 128 || r + 4 * (numPasses + 1) + 8 >= s.len) return L;
+        uint32_t ps = rd32(p + r + 4 * (numPasses - 1)), pe = rd32(p + r + 4 * numPasses);
+        if (pe <= ps || sub + pe != s.len) return L;        // last pass must end where the table ends
+        L.ok = true; L.silf_off = s.off; L.silf_len = s.len; L.dirlen_field = uint32_t(12 + 16 * i + 12);
+        L.opasses_last_field = uint32_t(s.off + r + 4 * numPasses); L.sub = sub; L.ps = ps; L.pe = pe;
+        return L;
+    }
+    return L;
 }
 
 struct FuzzRec { uint32_t off; uint8_t val; };
@@ -393,6 +428,28 @@ int main(int argc, char **argv) {
             m[off] = nv;
             desc = fmt("tail %c%c%c%c end-%u (file offset %u) = %u (was %u)", char(e.tag >> 24), char(e.tag >> 16), char(e.tag >> 8), char(e.tag), back, off, nv, v);
             if (nv == v) { st.add("skipped_identity"); continue; }
+        } else if (mut == "cut") {
+            // systematic truncation.  (a) the Silf table is cut at every byte of its last pass AND the pass-end offset is patched to the
+            // cut, so the pass still "ends where the table ends" and only the pass's own internal bounds checks stand between its
+            // readers and the end of the buffer; (b) every parsed table cut at each of its first 96 and last 48 bytes (directory length only)
+            LastPass L = silf_last_pass(base);
+            long na = L.ok ? long(std::min<uint32_t>(L.pe - L.ps, 1536)) : 0;
+            if (g < na) {
+                uint32_t k = uint32_t(g), newlen = L.sub + L.ps + k;
+                if (size_t(L.silf_off) + L.silf_len == m.size()) m.resize(size_t(L.silf_off) + newlen);     // (file face: the table may be last in the file)
+                wr32(&m[L.dirlen_field], newlen);
+                wr32(&m[L.opasses_last_field], L.ps + k);
+                desc = fmt("cut last Silf pass after %u of %u bytes (table length %u -> %u, pass end patched)", k, L.pe - L.ps, L.silf_len, newlen);
+            } else {
+                long h = g - na;
+                size_t ti = size_t(h / 144);
+                if (ti >= gdir.size()) { st.add("skipped_beyond_enumeration"); continue; }
+                const SfntDirEnt &e = gdir[ti];
+                uint32_t w = uint32_t(h % 144), newlen = w < 96 ? w : (e.len >= 144 - w ? e.len - (144 - w) : 0);
+                if (newlen >= e.len) { st.add("skipped_identity"); continue; }
+                for (size_t i = 0; i < dir.size(); ++i) if (dir[i].tag == e.tag) wr32(&m[12 + 16 * i + 12], newlen);
+                desc = fmt("cut table %c%c%c%c to %u of %u bytes", char(e.tag >> 24), char(e.tag >> 16), char(e.tag >> 8), char(e.tag), newlen, e.len);
+            }
         } else if (mut == "random") {
             int nm = r.range(1, 3);
             for (int i = 0; i < nm; ++i) {
